@@ -12,6 +12,7 @@ import (
 	"fmt"
 	"math/rand"
 	"runtime/debug"
+	"strings"
 
 	"verif/internal/sup"
 
@@ -358,7 +359,7 @@ func exhDefs(alpha string, idx, minLen, maxLen int) []step {
 }
 
 func depField(name string, opt, typed bool) field {
-	return field{Tag: app.DependencyTagName, Key: name, Opt: opt, Typed: typed}
+	return field{Tag: app.DependencyTagName, Key: name, Opt: opt || strings.HasPrefix(name, "?"), Typed: typed}
 }
 
 var exhSuites = func() [][]step {
@@ -419,6 +420,13 @@ func genFactory(rng *rand.Rand, id int, name func() string) *facSpec {
 		f.Edges = append(f.Edges, e)
 	}
 	f.Inject = rng.Intn(2) == 0
+	if f.Inject {
+		// an injection tag strips one optional marker: a name that starts with "?" can only be
+		// asked for as an optional dependency ("??n0")
+		for i := range f.Edges {
+			f.Edges[i].Opt = f.Edges[i].Opt || strings.HasPrefix(f.Edges[i].Name, "?")
+		}
+	}
 	switch x := rng.Intn(100); {
 	case x < 68:
 	case x < 83:
@@ -476,6 +484,11 @@ func genRandom(rng *rand.Rand) *program {
 	pool := []string{"n0", "n1", "n2", "n3", "n4"}
 	if p.Path == pathApp {
 		pool = []string{app.AppService, "n0", "n1", "n2", "n3"}
+	}
+	if rng.Intn(6) == 0 {
+		// a legal name that starts with the optional marker, next to the name without it: an
+		// injection tag strips exactly one marker ("??n0" is the optional dependency "?n0")
+		pool[1] = "?" + pool[0]
 	}
 	k := 2 + rng.Intn(len(pool)-1) // names actually used by this program (small => overlaps)
 	name := func() string {
@@ -576,7 +589,7 @@ func main() {
 			"(shape: no edge / required or optional edge to the other name via Get or InjectTo / required self edge; never failing, always failing, failing on the first invocation only = 76 symbols; " +
 			"the 28-symbol sub-alphabet keeps no edge / required edge via InjectTo / optional edge via Get and never/always failing): quick = all sequences of ≤ 2 calls over 76 symbols and all of exactly 3 calls over 28 symbols; " +
 			"thorough = all of ≤ 3 calls over 76 symbols and all of exactly 4 calls over 28 symbols; each sequence is followed by 4 fixed request suites (Get/InjectTo in different orders, repeated Gets after failures, late definitions); " +
-			"rand: seeded programs over a 5-name pool (≤ 12 definitions, factories with ≤ 3 required/optional edges to defined and undefined names, failing / flaky / nil-returning factories, " +
+			"rand: seeded programs over a 5-name pool (one program in six: a name that starts with the optional marker next to the name without it; ≤ 12 definitions, factories with ≤ 3 required/optional edges to defined and undefined names, failing / flaky / nil-returning factories, " +
 			"definitions attempted from inside factories, 3–14 requests) on four construction paths (NewProvider, NewProvider+map/multi/datascope injectors, NewStaticProvider, goatapp mock application); " +
 			"every program is run against the container and against ModelDI and the event traces are compared; distinct = distinct programs (random) or blocks (exhaustive); non-trivial = at least one factory invocation",
 		Assumptions: []string{
